@@ -7,6 +7,10 @@ def unsafe_decode(string):
 
 def decode(string):
   validate_encoded(string)
+  if re.search(r"(^|,)[+-]?(,|$)", string):
+    raise gfapy.FormatError(
+      "{} is not a valid list of GFA1 segment names ".format(repr(string))+
+      "and orientations\n(it contains an empty segment name)")
   return unsafe_decode(string)
 
 def validate_encoded(string):
